@@ -1,5 +1,7 @@
-(* C16: every connection attempt of a round trip, retries included, goes to a target that the
-   resolution of the ORIGINAL server name produced, with that target's Host and SNI. *)
+(* C16: every connection attempt of a round trip, retries included, goes to a target that a
+   resolution of the ORIGINAL server name produced (the cached one, the one made at the start of
+   the round trip, or the fresh one made for the retry), with that target's Host and SNI, and
+   every connection behind an attempt is one the allow / deny lists permit. *)
 From Verif Require Import Lib.Bytes Net.IpC16 Net.ServerNameC16 Net.Resolve Net.ResolveSpec
      Net.ResolveProofs Net.RoundTrip Net.PolicySpec Net.PolicyProofs.
 Open Scope N_scope.
@@ -33,108 +35,6 @@ Proof.
     + exists x. left. reflexivity.
 Qed.
 
-(* the targets a round trip may use: those in the cache, else those just resolved *)
-Definition usable (well_known_srv : bool) (name : bytes) (resolved : outcome)
-           (cache : option (list target)) (t : target) : Prop :=
-  if well_known_srv then
-    (exists l, cache = Some l /\ In t l) \/ (exists l, resolved = Targets l /\ In t l)
-  else t = {| t_dest := name; t_host := name; t_sni := name |}.
-
-Theorem attempts_are_usable wks dead name resolved cache k r t o :
-  round_trip wks dead name resolved cache k = Some r ->
-  In (t, o) (rt_attempts r) -> usable wks name resolved cache t.
-Proof.
-  unfold round_trip, usable. destruct wks.
-  - destruct (match cache with Some (x :: l) => Some (x :: l) | _ => None end) as [res|] eqn:Ec.
-    + assert (Hc : cache = Some res) by (destruct cache as [[|x l]|]; inversion Ec; reflexivity).
-      destruct (try_targets dead res k) as [[a1 k1] ok1] eqn:E1.
-      destruct ok1.
-      * intro H; inversion H; subst; simpl. intro Hin. left. exists res. split; [first [exact Hc|reflexivity]|].
-        apply (try_targets_in dead res k t o). rewrite E1. exact Hin.
-      * unfold second_pass. destruct (try_targets dead res k1) as [[a2 k2] ok2] eqn:E2.
-        intro H; inversion H; subst; simpl. intro Hin. left. exists res. split; [first [exact Hc|reflexivity]|].
-        apply in_app_or in Hin as [Hin|Hin].
-        -- apply (try_targets_in dead res k t o). rewrite E1. exact Hin.
-        -- apply (try_targets_in dead res k1 t o). rewrite E2. exact Hin.
-    + destruct resolved as [|[|x l]|]; try discriminate.
-      destruct (try_targets dead (x :: l) k) as [[a1 k1] ok1] eqn:E1.
-      destruct ok1.
-      * intro H; inversion H; subst; simpl. intro Hin. right. exists (x :: l). split; [reflexivity|].
-        apply (try_targets_in dead (x :: l) k t o). rewrite E1. exact Hin.
-      * unfold second_pass. destruct (try_targets dead (x :: l) k1) as [[a2 k2] ok2] eqn:E2.
-        intro H; inversion H; subst; simpl. intro Hin. right. exists (x :: l). split; [reflexivity|].
-        apply in_app_or in Hin as [Hin|Hin].
-        -- apply (try_targets_in dead (x :: l) k t o). rewrite E1. exact Hin.
-        -- apply (try_targets_in dead (x :: l) k1 t o). rewrite E2. exact Hin.
-  - set (d := {| t_dest := name; t_host := name; t_sni := name |}).
-    destruct (try_targets dead [d] k) as [[a1 k1] ok1] eqn:E1.
-    assert (Hall : forall l kk tt oo, (forall y, In y l -> y = d) ->
-                   In (tt, oo) (fst (fst (try_targets dead l kk))) -> tt = d).
-    { intros l kk tt oo Hl Hin. apply Hl. eapply try_targets_in. exact Hin. }
-    destruct ok1.
-    + intro H; inversion H; subst; simpl. intro Hin.
-      apply (Hall [d] k t o); [intros y [Hy|[]]; auto|rewrite E1; exact Hin].
-    + unfold second_pass. destruct (try_targets dead ([d] ++ [d]) k1) as [[a2 k2] ok2] eqn:E2.
-      intro H; inversion H; subst; simpl. intro Hin. apply in_app_or in Hin as [Hin|Hin].
-      * apply (Hall [d] k t o); [intros y [Hy|[]]; auto|rewrite E1; exact Hin].
-      * apply (Hall ([d] ++ [d]) k1 t o); [intros y [Hy|[Hy|[]]]; auto|rewrite E2; exact Hin].
-Qed.
-
-(* the cache only ever holds what a resolution of that name produced *)
-Theorem cache_holds_resolution wks dead name resolved cache k r l :
-  round_trip wks dead name resolved cache k = Some r -> rt_cache r = Some l ->
-  (wks = true /\ (cache = Some l \/ resolved = Targets l)) \/ (wks = false /\ cache = Some l).
-Proof.
-  unfold round_trip. destruct wks.
-  - destruct (match cache with Some (x :: l0) => Some (x :: l0) | _ => None end) as [res|] eqn:Ec.
-    + assert (Hc : cache = Some res) by (destruct cache as [[|x l0]|]; inversion Ec; reflexivity).
-      destruct (try_targets dead res k) as [[a1 k1] ok1]. destruct ok1.
-      * intro H; inversion H; subst; simpl. intro E; inversion E; subst. left. auto.
-      * unfold second_pass. destruct (try_targets dead res k1) as [[a2 k2] ok2].
-        intro H; inversion H; subst; simpl. discriminate.
-    + destruct resolved as [|[|x l0]|]; try discriminate.
-      destruct (try_targets dead (x :: l0) k) as [[a1 k1] ok1]. destruct ok1.
-      * intro H; inversion H; subst; simpl. intro E; inversion E; subst. left. auto.
-      * unfold second_pass. destruct (try_targets dead (x :: l0) k1) as [[a2 k2] ok2].
-        intro H; inversion H; subst; simpl. discriminate.
-  - destruct (try_targets dead _ k) as [[a1 k1] ok1]. destruct ok1.
-    + intro H; inversion H; subst; simpl. intro E. right. auto.
-    + unfold second_pass. destruct (try_targets dead _ k1) as [[a2 k2] ok2].
-      intro H; inversion H; subst; simpl. discriminate.
-Qed.
-
-(* a round trip reports success iff one attempt succeeded *)
-Theorem success_has_ok_attempt wks dead name resolved cache k r :
-  round_trip wks dead name resolved cache k = Some r -> rt_ok r = true ->
-  exists t, In (t, AOk) (rt_attempts r).
-Proof.
-  unfold round_trip.
-  destruct (if wks then _ else _) as [[results did]|]; [|discriminate].
-  destruct (try_targets dead results k) as [[a1 k1] ok1] eqn:E1. destruct ok1.
-  - intro H; inversion H; subst; simpl. intros _.
-    destruct (try_targets_ok_last dead results k) as [t Ht]; [rewrite E1; reflexivity|].
-    rewrite E1 in Ht. exists t. exact Ht.
-  - destruct (try_targets dead (second_pass wks results) k1) as [[a2 k2] ok2] eqn:E2.
-    intro H; inversion H; subst; simpl. intro Hok. subst ok2.
-    destruct (try_targets_ok_last dead (second_pass wks results) k1) as [t Ht]; [rewrite E2; reflexivity|].
-    rewrite E2 in Ht. exists t. apply in_or_app. right. exact Ht.
-Qed.
-
-(* with the specification: a fresh round trip for [name] sends every attempt, retries
-   included, to a target the specification's table prescribes for [name] itself *)
-Theorem attempts_follow_spec wk srv dead name k r t o l :
-  srv_sane srv ->
-  round_trip true dead name (resolve wk srv name) None k = Some r ->
-  In (t, o) (rt_attempts r) -> resolves wk srv name (Targets l) -> In t l.
-Proof.
-  intros Hs Hr Hin Hspec.
-  apply (resolve_unique wk srv name _ Hs) in Hspec.
-  pose proof (attempts_are_usable true dead name _ None k r t o Hr Hin) as Hu.
-  simpl in Hu. destruct Hu as [(l' & Hc & _)|(l' & Hres & Hl')]; [discriminate|].
-  rewrite <- Hspec in Hres. inversion Hres; subst. exact Hl'.
-Qed.
-
-(* ---------- every connection is policed ---------- *)
 Lemma try_targets_unblocked (blocked : target -> bool) : forall l k t o,
   In (t, o) (fst (fst (try_targets blocked l k))) -> o <> ARefused -> blocked t = false.
 Proof.
@@ -150,37 +50,208 @@ Proof.
     + simpl in H. destruct H as [H|[]]. inversion H; subst. exact Eb.
 Qed.
 
-Lemma round_trip_unblocked wks blocked name resolved cache k r t o :
-  round_trip wks blocked name resolved cache k = Some r ->
-  In (t, o) (rt_attempts r) -> o <> ARefused -> blocked t = false.
+Lemma targets_of_some o l : targets_of o = Some l -> o = Targets l.
+Proof. destruct o as [|[|x r]|]; simpl; intro H; inversion H; reflexivity. Qed.
+
+(* A property of the passes of a round trip, proved once: every pass's attempts were produced by
+   try_targets over a list that is the cache content, a resolution made in this round trip, or
+   the direct target. *)
+Definition source_ok (wks : bool) (name : bytes) (res : nat -> outcome) (n : nat)
+           (cache : option (list target)) (l : list target) : Prop :=
+  if wks then cache = Some l \/ res n = Targets l \/ res (S n) = Targets l
+            \/ (exists x r, cache = Some (x :: r) /\ res n = Targets l)
+  else l = [ {| t_dest := name; t_host := name; t_sni := name |} ].
+
+Lemma round_trip_passes wks blocked name res n cache k p :
+  In p (rt_passes (round_trip wks blocked name res n cache k)) ->
+  p_attempts p = [] \/
+  exists l kk, source_ok wks name res n cache l /\
+               p_attempts p = fst (fst (try_targets blocked l kk)).
 Proof.
-  unfold round_trip.
-  destruct (if wks then _ else _) as [[results did]|]; [|discriminate].
-  destruct (try_targets blocked results k) as [[a1 k1] ok1] eqn:E1. destruct ok1.
-  - intro H; inversion H; subst; simpl. intros Hin Ho.
-    apply (try_targets_unblocked blocked results k t o); [rewrite E1; exact Hin|exact Ho].
-  - destruct (try_targets blocked (second_pass wks results) k1) as [[a2 k2] ok2] eqn:E2.
-    intro H; inversion H; subst; simpl. intros Hin Ho. apply in_app_or in Hin as [Hin|Hin].
-    + apply (try_targets_unblocked blocked results k t o); [rewrite E1; exact Hin|exact Ho].
-    + apply (try_targets_unblocked blocked (second_pass wks results) k1 t o); [rewrite E2; exact Hin|exact Ho].
+  unfold round_trip, source_ok. destruct wks.
+  - destruct cache as [[|x l]|].
+    + (* empty cached list: resolve *)
+      destruct (targets_of (res n)) as [l1|] eqn:E1; simpl.
+      * destruct (try_targets blocked l1 k) as [[a1 k1] ok1] eqn:T1. destruct ok1; simpl.
+        -- intros [H|[]]; subst p; simpl. right. exists l1, k. rewrite T1. simpl.
+           split; [right; left; apply targets_of_some; exact E1|reflexivity].
+        -- destruct (targets_of (res (S n))) as [l2|] eqn:E2; simpl.
+           ++ destruct (try_targets blocked l2 k1) as [[a2 k2] ok2] eqn:T2. simpl.
+              intros [H|[H|[]]]; subst p; simpl; right.
+              ** exists l1, k. rewrite T1. simpl. split; [right; left; apply targets_of_some; exact E1|reflexivity].
+              ** exists l2, k1. rewrite T2. simpl. split; [right; right; left; apply targets_of_some; exact E2|reflexivity].
+           ++ intros [H|[H|[]]]; subst p; simpl; [right|left; reflexivity].
+              exists l1, k. rewrite T1. simpl. split; [right; left; apply targets_of_some; exact E1|reflexivity].
+      * intros [H|[]]; subst p. left. reflexivity.
+    + (* cached targets *)
+      remember (x :: l) as cl eqn:Ecl. rewrite Ecl at 1. cbv beta iota zeta. rewrite <- Ecl.
+      destruct (try_targets blocked cl k) as [[a1 k1] ok1] eqn:T1. destruct ok1; simpl.
+      * intros [H|[]]; subst p; simpl. right. exists cl, k. rewrite T1. simpl. auto.
+      * destruct (targets_of (res n)) as [l2|] eqn:E2; simpl.
+        -- destruct (try_targets blocked l2 k1) as [[a2 k2] ok2] eqn:T2. simpl.
+           intros [H|[H|[]]]; subst p; simpl; right.
+           ++ exists cl, k. rewrite T1. simpl. auto.
+           ++ exists l2, k1. rewrite T2. simpl. split; [right; left; apply targets_of_some; exact E2|reflexivity].
+        -- intros [H|[H|[]]]; subst p; simpl; [right|left; reflexivity].
+           exists cl, k. rewrite T1. simpl. auto.
+    + destruct (targets_of (res n)) as [l1|] eqn:E1; simpl.
+      * destruct (try_targets blocked l1 k) as [[a1 k1] ok1] eqn:T1. destruct ok1; simpl.
+        -- intros [H|[]]; subst p; simpl. right. exists l1, k. rewrite T1. simpl.
+           split; [right; left; apply targets_of_some; exact E1|reflexivity].
+        -- destruct (targets_of (res (S n))) as [l2|] eqn:E2; simpl.
+           ++ destruct (try_targets blocked l2 k1) as [[a2 k2] ok2] eqn:T2. simpl.
+              intros [H|[H|[]]]; subst p; simpl; right.
+              ** exists l1, k. rewrite T1. simpl. split; [right; left; apply targets_of_some; exact E1|reflexivity].
+              ** exists l2, k1. rewrite T2. simpl. split; [right; right; left; apply targets_of_some; exact E2|reflexivity].
+           ++ intros [H|[H|[]]]; subst p; simpl; [right|left; reflexivity].
+              exists l1, k. rewrite T1. simpl. split; [right; left; apply targets_of_some; exact E1|reflexivity].
+      * intros [H|[]]; subst p. left. reflexivity.
+  - remember [ {| t_dest := name; t_host := name; t_sni := name |} ] as d eqn:Ed.
+    destruct (try_targets blocked d k) as [[a1 k1] ok1] eqn:T1. destruct ok1; simpl.
+    + intros [H|[]]; subst p; simpl. right. exists d, k. rewrite T1. auto.
+    + destruct (try_targets blocked d k1) as [[a2 k2] ok2] eqn:T2. simpl.
+      intros [H|[H|[]]]; subst p; simpl; right.
+      * exists d, k. rewrite T1. auto.
+      * exists d, k1. rewrite T2. auto.
 Qed.
 
-(* every connection a round trip makes for its attempts, on either pass, is to an address the
-   allow / deny lists permit ... *)
-Theorem attempt_connections_allowed wks dead allow deny ip_of name resolved cache k r c :
-  round_trip wks (blocked_by dead allow deny ip_of) name resolved cache k = Some r ->
-  In c (attempt_connections ip_of (rt_attempts r)) ->
+(* the targets a round trip may use: those in the cache, those of the resolution it starts with
+   and those of the fresh resolution made for its retry *)
+Definition usable (wks : bool) (name : bytes) (res : nat -> outcome) (n : nat)
+           (cache : option (list target)) (t : target) : Prop :=
+  if wks then
+    (exists l, cache = Some l /\ In t l) \/ (exists l, res n = Targets l /\ In t l)
+    \/ (exists l, res (S n) = Targets l /\ In t l)
+  else t = {| t_dest := name; t_host := name; t_sni := name |}.
+
+Theorem attempts_are_usable wks blocked name res n cache k t o :
+  In (t, o) (rt_attempts (round_trip wks blocked name res n cache k)) ->
+  usable wks name res n cache t.
+Proof.
+  unfold rt_attempts. intro H. apply in_flat_map in H as (p & Hp & Hin).
+  destruct (round_trip_passes _ _ _ _ _ _ _ _ Hp) as [He|(l & kk & Hs & Ha)].
+  - rewrite He in Hin. contradiction.
+  - rewrite Ha in Hin. apply try_targets_in in Hin.
+    unfold source_ok in Hs. unfold usable. destruct wks.
+    + destruct Hs as [Hc|[Hr|[Hr|(x & r & Hc & Hr)]]].
+      * left. exists l. auto.
+      * right. left. exists l. auto.
+      * right. right. exists l. auto.
+      * right. left. exists l. auto.
+    + subst l. destruct Hin as [Hin|[]]. symmetry. exact Hin.
+Qed.
+
+Theorem attempts_unblocked wks blocked name res n cache k t o :
+  In (t, o) (rt_attempts (round_trip wks blocked name res n cache k)) ->
+  o <> ARefused -> blocked t = false.
+Proof.
+  unfold rt_attempts. intros H Ho. apply in_flat_map in H as (p & Hp & Hin).
+  destruct (round_trip_passes _ _ _ _ _ _ _ _ Hp) as [He|(l & kk & _ & Ha)].
+  - rewrite He in Hin. contradiction.
+  - rewrite Ha in Hin. eapply try_targets_unblocked; eauto.
+Qed.
+
+(* the cache only ever holds what it held or what a resolution of that name produced *)
+Theorem cache_holds_resolution wks blocked name res n cache k l :
+  rt_cache (round_trip wks blocked name res n cache k) = Some l ->
+  cache = Some l \/ (wks = true /\ (res n = Targets l \/ res (S n) = Targets l)).
+Proof.
+  unfold round_trip. destruct wks.
+  - destruct cache as [[|x c]|].
+    + destruct (targets_of (res n)) as [l1|] eqn:E1; simpl; [|discriminate].
+      destruct (try_targets blocked l1 k) as [[a1 k1] ok1]. destruct ok1; simpl.
+      * intro H; inversion H; subst. right. split; [reflexivity|left; apply targets_of_some; exact E1].
+      * destruct (targets_of (res (S n))) as [l2|] eqn:E2; simpl; [|discriminate].
+        destruct (try_targets blocked l2 k1) as [[a2 k2] ok2]. simpl. destruct ok2; [|discriminate].
+        intro H; inversion H; subst. right. split; [reflexivity|right; apply targets_of_some; exact E2].
+    + remember (x :: c) as cl eqn:Ecl. rewrite Ecl at 1. cbv beta iota zeta. rewrite <- Ecl.
+      destruct (try_targets blocked cl k) as [[a1 k1] ok1]. destruct ok1; simpl.
+      * intro H; inversion H; subst. left. reflexivity.
+      * destruct (targets_of (res n)) as [l2|] eqn:E2; simpl; [|discriminate].
+        destruct (try_targets blocked l2 k1) as [[a2 k2] ok2]. simpl. destruct ok2; [|discriminate].
+        intro H; inversion H; subst. right. split; [reflexivity|left; apply targets_of_some; exact E2].
+    + destruct (targets_of (res n)) as [l1|] eqn:E1; simpl; [|discriminate].
+      destruct (try_targets blocked l1 k) as [[a1 k1] ok1]. destruct ok1; simpl.
+      * intro H; inversion H; subst. right. split; [reflexivity|left; apply targets_of_some; exact E1].
+      * destruct (targets_of (res (S n))) as [l2|] eqn:E2; simpl; [|discriminate].
+        destruct (try_targets blocked l2 k1) as [[a2 k2] ok2]. simpl. destruct ok2; [|discriminate].
+        intro H; inversion H; subst. right. split; [reflexivity|right; apply targets_of_some; exact E2].
+  - remember [ {| t_dest := name; t_host := name; t_sni := name |} ] as d eqn:Ed.
+    destruct (try_targets blocked d k) as [[a1 k1] ok1]. destruct ok1; simpl.
+    + intro H. left. exact H.
+    + destruct (try_targets blocked d k1) as [[a2 k2] ok2]. simpl. discriminate.
+Qed.
+
+(* a round trip reports success iff one attempt succeeded *)
+Theorem success_has_ok_attempt wks blocked name res n cache k :
+  rt_ok (round_trip wks blocked name res n cache k) = true ->
+  exists t, In (t, AOk) (rt_attempts (round_trip wks blocked name res n cache k)).
+Proof.
+  assert (Hgen : forall l kk a k' (pre : list pass) r,
+            try_targets blocked l kk = (a, k', true) ->
+            exists t, In (t, AOk) (flat_map p_attempts (pre ++ [ {| p_resolution := r; p_attempts := a |} ]))).
+  { intros l kk a k' pre r T. destruct (try_targets_ok_last blocked l kk) as [t Ht]; [rewrite T; reflexivity|].
+    rewrite T in Ht. simpl in Ht. exists t. rewrite flat_map_app. apply in_or_app. right. simpl.
+    rewrite app_nil_r. exact Ht. }
+  unfold rt_attempts, round_trip. destruct wks.
+  - destruct cache as [[|x c]|].
+    + destruct (targets_of (res n)) as [l1|]; simpl; [|discriminate].
+      destruct (try_targets blocked l1 k) as [[a1 k1] ok1] eqn:T1. destruct ok1; simpl.
+      * intros _. apply (Hgen l1 k a1 k1 [] (Some n) T1).
+      * destruct (targets_of (res (S n))) as [l2|]; simpl; [|discriminate].
+        destruct (try_targets blocked l2 k1) as [[a2 k2] ok2] eqn:T2. simpl. intro H; subst ok2.
+        apply (Hgen l2 k1 a2 k2 [ {| p_resolution := Some n; p_attempts := a1 |} ] (Some (S n)) T2).
+    + remember (x :: c) as cl eqn:Ecl. rewrite Ecl at 1. cbv beta iota zeta. rewrite <- Ecl.
+      destruct (try_targets blocked cl k) as [[a1 k1] ok1] eqn:T1. destruct ok1; simpl.
+      * intros _. apply (Hgen cl k a1 k1 [] None T1).
+      * destruct (targets_of (res n)) as [l2|]; simpl; [|discriminate].
+        destruct (try_targets blocked l2 k1) as [[a2 k2] ok2] eqn:T2. simpl. intro H; subst ok2.
+        apply (Hgen l2 k1 a2 k2 [ {| p_resolution := None; p_attempts := a1 |} ] (Some n) T2).
+    + destruct (targets_of (res n)) as [l1|]; simpl; [|discriminate].
+      destruct (try_targets blocked l1 k) as [[a1 k1] ok1] eqn:T1. destruct ok1; simpl.
+      * intros _. apply (Hgen l1 k a1 k1 [] (Some n) T1).
+      * destruct (targets_of (res (S n))) as [l2|]; simpl; [|discriminate].
+        destruct (try_targets blocked l2 k1) as [[a2 k2] ok2] eqn:T2. simpl. intro H; subst ok2.
+        apply (Hgen l2 k1 a2 k2 [ {| p_resolution := Some n; p_attempts := a1 |} ] (Some (S n)) T2).
+  - remember [ {| t_dest := name; t_host := name; t_sni := name |} ] as d eqn:Ed.
+    destruct (try_targets blocked d k) as [[a1 k1] ok1] eqn:T1. destruct ok1; simpl.
+    + intros _. apply (Hgen d k a1 k1 [] None T1).
+    + destruct (try_targets blocked d k1) as [[a2 k2] ok2] eqn:T2. simpl. intro H; subst ok2.
+      apply (Hgen d k1 a2 k2 [ {| p_resolution := None; p_attempts := a1 |} ] None T2).
+Qed.
+
+(* with the specification: a round trip for [name] starting without a cache entry sends every
+   attempt to a target the specification's table prescribes for [name] itself under the answers
+   of the lookups at the time: those of its first resolution on the first pass, those of the
+   fresh resolution on the retry *)
+Theorem attempts_follow_spec wk1 srv1 wk2 srv2 blocked name k t o :
+  srv_sane srv1 -> srv_sane srv2 ->
+  In (t, o) (rt_attempts (round_trip true blocked name
+               (fun i => match i with O => resolve wk1 srv1 name | _ => resolve wk2 srv2 name end)
+               0 None k)) ->
+  (exists l, resolves wk1 srv1 name (Targets l) /\ In t l) \/
+  (exists l, resolves wk2 srv2 name (Targets l) /\ In t l).
+Proof.
+  intros Hs1 Hs2 Hin. apply attempts_are_usable in Hin. simpl in Hin.
+  destruct Hin as [(l & Hc & _)|[(l & Hr & Hl)|(l & Hr & Hl)]]; [discriminate| |].
+  - left. exists l. split; [|exact Hl]. rewrite <- Hr. apply resolve_sound. exact Hs1.
+  - right. exists l. split; [|exact Hl]. rewrite <- Hr. apply resolve_sound. exact Hs2.
+Qed.
+
+(* ---------- every connection is policed ---------- *)
+Theorem attempt_connections_allowed wks dead allow deny ip_of name res n cache k c :
+  In c (attempt_connections ip_of
+          (rt_attempts (round_trip wks (blocked_by dead allow deny ip_of) name res n cache k))) ->
   may_connect allow deny (net_of c) c.
 Proof.
-  intros Hr Hin. unfold attempt_connections in Hin. apply in_flat_map in Hin as ([t o] & Ha & Hc).
+  intro Hin. unfold attempt_connections in Hin. apply in_flat_map in Hin as ([t o] & Ha & Hc).
   simpl in Hc. assert (Ho : o <> ARefused) by (destruct o; [discriminate|discriminate|contradiction]).
   assert (Hc' : c = dest_addr ip_of (t_dest t)) by (destruct o; simpl in Hc; intuition).
-  pose proof (round_trip_unblocked _ _ _ _ _ _ _ _ _ Hr Ha Ho) as Hb.
+  pose proof (attempts_unblocked _ _ _ _ _ _ _ _ _ Ha Ho) as Hb.
   unfold blocked_by in Hb. apply orb_false_iff in Hb as [_ Hb]. apply negb_false_iff in Hb.
   subst c. apply control_allows_may_connect. exact Hb.
 Qed.
 
-(* ... and so is the connection of the .well-known request *)
 Theorem well_known_connection_allowed allow deny ip_of name c :
   well_known_connection allow deny ip_of name = Some c -> may_connect allow deny (net_of c) c.
 Proof.
